@@ -115,6 +115,15 @@ example : DiscAll 10 [0x61] {} demoRun := by
   · intro _; left; exact ⟨⟨.put, 10, 20, [1]⟩, by decide, rfl, by decide, rfl⟩
   · rintro lab (rfl | ⟨_, rfl⟩) <;> simp [KLabel.txn, KLabel.keepsTxn, KLabel.keepsRecord]
 
+/-- the resolver's side of the discipline is what the store tells it: a status check that answers a commit ts found the
+    primary's data record at that ts (so resolving secondaries as committed at that ts obeys `Disc`), and one that
+    answers a rollback action left the primary's rollback record (so resolving them as rolled back obeys it) -/
+theorem status_answers_justify_resolve (s s' : Store) (p : Bytes) (T caller cur : Nat) (rb rp : Bool) (r : StatusResp)
+    (hs : KvSorted s.kv) (h : checkTxnStatus s p T caller cur rb rp = (s', r)) :
+    (r.commitTS ≠ 0 → HasData (getEntry s.kv p) T r.commitTS ∧ s' = s) ∧
+    ((r.action = .ttlExpireRollback ∨ r.action = .lockNotExistRollback) → HasRb (getEntry s'.kv p) T) :=
+  ⟨status_commit_sound s s' p T caller cur rb rp r h, status_rollback_sound s s' p T caller cur rb rp r hs h⟩
+
 /-- recovery by resolve removes the lock it resolves (commit or rollback alike) -/
 theorem resolve_kernel_removes_lock (e : Entry) (l : Lock) (k : Bytes) (T C : Nat) :
     LockFreeOf ((commitLock l k T C).foldl entryAct e) T ∧ LockFreeOf ((rollbackLock k T).foldl entryAct e) T :=
